@@ -316,7 +316,7 @@ func rulesC02(w *World, r *Report) {
 			}
 		}
 	}
-	r.floor("C02.R2 header octets", nH, 14)
+	r.floor("C02.R2 header octets", nH, 8)
 	w.ruleListCount(r, "C02.R2 declared count = loop bound")
 	if fn := w.fn("(*Encoder).writeList"); fn != nil {
 		w.ruleCompactHeaders(r, "C02.R2 compact list header carries the true length", fn, 0x70, 0x77)
